@@ -158,9 +158,15 @@ class MDOChain(ProcessDiscipline):
                 common_inputs = sorted(
                     set(self.jac[output_name].keys()).intersection(discipline.jac)
                 )
+                # The discipline computes these variables:
+                # the derivatives with respect to them are consumed by the chain rule.
+                consumed_jac = {
+                    input_name: self.jac[output_name].pop(input_name)
+                    for input_name in common_inputs
+                }
                 for input_name in common_inputs:
                     # Store reference to the current Jacobian
-                    curr_jac = self.jac[output_name][input_name]
+                    curr_jac = consumed_jac[input_name]
                     for new_in, new_jac in discipline.jac[input_name].items():
                         # Chain rule the derivatives
                         # TODO: sum BEFORE dot
@@ -171,10 +177,7 @@ class MDOChain(ProcessDiscipline):
                         else:
                             loc_dot = curr_jac @ new_jac
 
-                        # when input_name==new_in, we are in the case of an
-                        # input being also an output
-                        # in this case we must only compose the derivatives
-                        if new_in in self.jac[output_name] and input_name != new_in:
+                        if new_in in self.jac[output_name]:
                             # The output is already linearized wrt this
                             # input_name. We are in the case:
                             # d o     d o    d o     di_2
